@@ -47,7 +47,7 @@ def extend(history, step):
 
 
 REQUIRED = {
- "C01": ["completed_absorbing", "completed_absorbing_run", "sync_tells_assigned"],
+ "C01": ["completed_absorbing", "completed_absorbing_run", "sync_tells_assigned", "workers_tasks_inverse", "queued_ops_sane", "ops_tasks_inverse", "completed_task_released", "no_start_after_complete", "tables_structure", "parked_workers"],
  "C02": ["call_trace_shape", "stream_done_once", "nothing_after_end", "return_follows_done", "done_faithful", "done_enabled", "stages_monotone"],
  "C03": ["inflight_exact", "live_cacheable_unique", "dup_exec_no_new_task", "exec_start_dnc_keeps_inflight", "fresh_after_completion"],
  "C04": ["pick_minimal", "assign_next_in_policy", "descend_cases", "sticky_only_breaks_ties", "minimal_sound", "minimal_complete", "minimal_nonempty"],
